@@ -40,6 +40,26 @@ PROPS = {
         "rule": "cases = (successful, failed, dropped) in [0..8]^3 (thorough [0..20]^3) x error set x ignore-dropped x max-failures {0,1,2,5} x max-failures-rate {0,1,5,10,33,50,99,100}, plus totals 1..40 x failed 0..6 x rate 1..100; distinct non-trivial = distinct combinations of which clauses of the documented rule hold",
         "assumptions": E2_ASSUME + ["the CLI layer (exit status = verdict) is covered by the whole-run harness of C06/C07 scenarios, not here"],
     },
+    "C10": {
+        "parts": [{"harness": "c10", "budget": {"quick": 30, "thorough": 600}, "shards": {"quick": 4, "thorough": 'ncpu'}}],
+        "rule": 'cases = stage lists of length <=3 over durations {0,700ms,1s,3s} x targets {0,1,2,7,100}, queried at the 250 ms grid plus every boundary -1ns/=/+1ns, as all non-decreasing sequences of length <=2 (<=3 for <=2 stages), with and without a given start; ramp: start,end in {0,1,2,10,100}^2 x durations {1s,2.5s,10s} x units {1s,100ms}; distinct = (stage index, over, direction) classes',
+        "assumptions": E2_ASSUME,
+    },
+    "C12": {
+        "parts": [{"harness": "c12", "budget": {"quick": 30, "thorough": 600}, "shards": {"quick": 4, "thorough": 'ncpu'}}],
+        "rule": 'regular: N in 2..100 (thorough 2..600) x three intervals per N (multiple of 100 ms, +15 ms, +99 ms) x rate 0..300 (thorough 0..1500, and 0..20000 step 7 for N<=60), two cycles with a changed rate; random: N<=4 (thorough 5) x rate {0,1,2,5,10} x every answer sequence of the random source over {0,n/2,n-1,n,n+5}; all rate triples over {0,1,3,7,10} for 3 cycles; pass-through and unknown kinds; distinct = (N class, rate class) / answer scripts',
+        "assumptions": E2_ASSUME,
+    },
+    "C13": {
+        "parts": [{"harness": "c13", "budget": {"quick": 30, "thorough": 600}, "shards": {"quick": 4, "thorough": 'ncpu'}}],
+        "rule": 'jitter in {0,1,20,50,99,99.9} x 8 rate sequences (constants 0,1,3,10,1000, burst, alternation, ramp) x every sequence of length 6 (thorough 8) of random outcomes u in {0,1/8,1/4,3/8,1/2} (cos 2*pi*u = 1, .71, 0, -.71, -1); distinct = first scripts per (jitter, sequence)',
+        "assumptions": E2_ASSUME + ['the random variation is explored over 5 values of the uniform draw (both extremes, the centre and two interior points of the cosine), not over all floats'],
+    },
+    "C20": {
+        "parts": [{"harness": "c20", "budget": {"quick": 20, "thorough": 60}, "shards": {"quick": 1, "thorough": 1}}],
+        "rule": 'programs = 1..3 components, each setup and each iteration function in {pass, Fail, FailNow, panic}: 16+256+4096 = 4368 programs, two iterations each, through the real ActiveScenario.Setup/Run; distinct = (components, first stopping setup, first stopping iteration function)',
+        "assumptions": E2_ASSUME,
+    },
     "C18": {
         "parts": [{"harness": "c18", "budget": {"quick": 30, "thorough": 300}, "shards": {"quick": 1, "thorough": 1}}],
         "rule": "one execution = one complete interleaving + timer order of the scenario (schedule list x function duration x Restart/Stop/cancel script); distinct = distinct outcome signatures (status, violations, ordered event log)",
@@ -70,6 +90,18 @@ LEVELS = {
     "C08": {"engine": "enum", "technique": "bounded-exhaustive enumeration of all count triples x error sets x option combinations over a stated alphabet, against the documented rule in exact integer arithmetic",
             "text": "Every combination of (successful, failed, dropped) up to 20 each, error set, ignore-dropped, max-failures and max-failures-rate is fed through the real progress.Stats and run.Result and Failed()/Error() are compared with the documented rule evaluated in exact integer arithmetic; a panic is an outcome. Totals up to 40 with every rate 1..100 cover the non-integral percentages.",
             "note": "Trusted base: the reference rule (5 lines), the Go compiler. Values outside the alphabet (counts > 40, rates > 100) are not explored."},
+    "C10": {"engine": "enum", "technique": "bounded-exhaustive enumeration of stage lists and non-decreasing query sequences against exact rational interpolation, with a stepped-vs-direct differential for the calculator's cursor",
+            "text": "Every stage list over the alphabet is built through the real CalculateStagedRate / CalculateRampRate and queried with every non-decreasing sequence of instants from a grid that contains each stage boundary and its 1 ns neighbours; each value is compared with exact rational interpolation (within 1, inside the stage's targets, monotone, 0 after the end, Duration = sum) and the value after stepping through earlier instants must equal the value asked directly.",
+            "note": 'Trusted base: the reference model in the harness, the Go compiler. Values outside the stated alphabet are not explored.'},
+    "C12": {"engine": "enum", "technique": 'bounded-exhaustive enumeration of (cycle length, rate) and of every random-source answer sequence over a 5-point alphabet, against per-cycle conservation',
+            "text": 'Per cycle of N sub-ticks of the real NewDistribution: every value non-negative, the sum equals what the underlying rate function returned for that cycle, the underlying function is called exactly once per cycle, the regular variant is even (max-min <= 1); intervals <= 100 ms and kind none pass through, unknown kinds are errors.',
+            "note": 'Trusted base: the reference model in the harness, the Go compiler. Values outside the stated alphabet are not explored.'},
+    "C13": {"engine": "enum", "technique": 'bounded-exhaustive enumeration of every random-outcome sequence over a 5-point alphabet against the carry recurrence and its fixed-point bound',
+            "text": 'The real WithJitter (its math/rand replaced by a scripted source) is run for every outcome sequence: outputs are non-negative integers, each lies within jitter percent plus rounding of rate plus carried remainder, the running total stays within the fixed bound (j*Rmax+1/2)/(1-j) of the un-jittered total, zero jitter is the identity and draws nothing.',
+            "note": 'Trusted base: the reference model in the harness, the Go compiler. Values outside the stated alphabet are not explored.'},
+    "C20": {"engine": "enum", "technique": 'exhaustive enumeration of all 4368 component-behaviour programs against a list-based reference of the expected call sequence',
+            "text": "Every program is run through f1.CombineScenarios and the real ActiveScenario: the observed call sequence (with the handle each call received) must equal the reference sequence - setups once each in order on one handle, stopping at the first FailNow/panic; per iteration the functions in order with that iteration's handle, later ones skipped after a FailNow/panic in that iteration only - and setup / iteration verdicts must match.",
+            "note": 'Trusted base: the reference model in the harness, the Go compiler. Values outside the stated alphabet are not explored.'},
     "C18": {"engine": "vrt", "technique": "stateless model checking of the real raterun.Runner under a controlled scheduler with virtual time: all interleavings, select choices and same-instant timer orders up to a deviation bound",
             "text": "The real Runner runs in virtual time against scripted Restart/Stop/cancel sequences; every interleaving of the runner goroutine with the driver, every select choice among ready cases and every order of same-instant timers is executed (deviation bound per scenario in the evidence) and the ordered event log is checked: rate per schedule activation, argument, nothing executing or invoked after Stop returned, no thread or timer left.",
             "note": E1_NOTE},
